@@ -172,5 +172,26 @@ PROPS["C18"] = {
     "assumptions": ["selectors are literals with optional ^/$ anchors, '' or '.*'"],
 }
 
+PROPS["C17"] = {
+    "variants": ["v1"],
+    "lean": ["Gengo.Props.C17"],
+    "level": "proof",
+    "level_text": "Kernel-checked refinement of the generated methods (transcribed from the setCode template) to membership predicates, for "
+                  "every iteration order of the underlying maps: Insert/Delete/Has/HasAll/HasAny, Clone, Union, Intersection (walking the "
+                  "smaller operand), Difference, SymmetricDifference, IsSuperset, Equal (len == and IsSuperset, via a counting argument on "
+                  "duplicate-free lists), List (each member once, strictly ascending, independent of map order), PopAny; allocation leaves "
+                  "every existing set unchanged, Insert/Delete touch the receiver only; the generated lexicographic less is a strict total "
+                  "order. The four checked-in set types are driven through operation sequences and compared with the model and with a "
+                  "reference implementation on sorted slices.",
+    "level_note": "Trusted: Lean kernel, the transcription of setCode (validated by correspondence on the checked-in generated types, "
+                  "and tied to the template by the regenerated-facts check of the template text), sort.Sort's contract, Go map semantics "
+                  "(duplicate-free keys).",
+    "rule": "operation sequences (1..8 operations out of 16 kinds incl. the binary ones on arbitrary earlier sets) over element universes of "
+            "3..6 values, for the generated Int, Int64, Byte and String sets (negative ints, large int64s, non-ASCII strings); PopAny on "
+            "sets with > 1 member is judged by the oracle only (the popped member is the runtime's choice); thorough adds all sequences of "
+            "length <= 4 over a 12-operation alphabet. Non-trivial = at least 3 operations; distinct = distinct history.",
+    "assumptions": ["element values are mapped to model keys by an order-preserving injection"],
+}
+
 # properties not claimed, with the reason (kept current by hand)
 NOT_APPLICABLE = {}
